@@ -197,6 +197,9 @@ fn observe_with(bodies: &[&str], reg: &Registration, probes: bool) -> (Obs, Vec<
         static PRISTINE: tera::Tera = tera::Tera::default();
     }
     let mut t = PRISTINE.with(|p| p.clone());
+    if HOST_SUPER.with(|c| c.get()) {
+        t.register_function("super", |_: tera::Kwargs, _: &tera::State| "HOST".to_string());
+    }
     let mut registered = vec![false; l];
     let mut adds = vec![];
     if reg.one_by_one {
@@ -573,6 +576,11 @@ impl Judge<'_> {
 /// Runs one chain under the canonical registration and judges it.
 /// `divergent`: false = the differential families, which leave chains without a finite rendering
 /// to the divergent-* families; true = run only those.
+thread_local! {
+    /// observe() registers a host function called `super` on the instance
+    static HOST_SUPER: std::cell::Cell<bool> = const { std::cell::Cell::new(false) };
+}
+
 /// `{% block x %}` -> `{% block x %}{% for q in range(end=0) %}{% endfor %}` everywhere in a body.
 fn with_call_in_blocks(body: &str) -> String {
     let mut out = String::new();
@@ -635,6 +643,26 @@ fn run_canonical(levels: &[&Level], bodies: &[&str], descs: &[&str], acc: &mut A
                 },
             );
             Judge { levels, descs: descs.to_vec(), exp: &exp, reg: &reg, sources: &dsources, prefix: "function-call-in-blocks:", count: true }.run(&dobs, acc, tally);
+        }
+    }
+    // Inside a block `super()` is the parent's rendering whatever the host program registered: the
+    // same chain on an instance that has a user function called `super` (chains of one and two
+    // levels). (Seeded change C04-14 looked `super` up in the function table first.)
+    if !divergent && levels.len() <= 2 && bodies.iter().any(|b| b.contains("super()")) {
+        HOST_SUPER.with(|c| c.set(true));
+        let (hobs, hsources) = observe(bodies, &reg);
+        HOST_SUPER.with(|c| c.set(false));
+        let n = 1 + hobs.levels.iter().flatten().count() as u64 * (1 + PROBES.len() as u64);
+        if hobs.coarse() == obs.coarse() {
+            acc.evaluations += n;
+            acc.nontrivial += n;
+            *acc.outcomes.entry("host-function-named-super:same".into()).or_insert(0) += n;
+        } else {
+            acc.violation(
+                "host-function-named-super:observation-differs",
+                "the same chain on an instance where the host registered a function called `super` is accepted or rendered differently",
+                || json!({"templates": hsources.iter().map(|(n, s)| json!({"name": n, "source": s})).collect::<Vec<_>>(), "registered": "function `super` returning \"HOST\"", "observed": hobs.coarse(), "observed_without_it": obs.coarse()}),
+            );
         }
     }
     let k = levels.len() - 1;
